@@ -25,7 +25,7 @@ var plainKeys = []string{"level", "service", "msg", "user", "name", "id", "tags"
 // delimiter, gjson metacharacters, unicode, "::"-containing.
 var hostileKeys = []string{"a.b", "a.b.c", "", ".", ".x", "x.", "a..b", "*", "?", "a*b", "\\", "a\\.b", "ключ", "键", "a::b", "::", "k::", "#", "@this", "0", "1", "-1", "a b", "A", "É", "K", "user.name", "tags.0", "{", "}", "\"", "a|b", "a.#", "a.#.b"}
 
-var words = []string{"error", "warn", "info", "alice", "bob", "Carol", "DAVE", "eve", "login", "logout", "payment", "Failed", "ok", "timeout", "the", "quick", "brown", "fox", "ÉCOLE", "école", "Straße", "STRASSE", "İstanbul", "ıstanbul", "K", "k", "K", "ǅ", "ǆ", "Ω", "ω", "日本語", "emoji😀", "a::b", "x::", "::y", "a.b", "1", "2", "42", "true", "null", "3.14", "-0", "1e5", "NaN", "foo-bar", "foo_bar", "FOO", "foo"}
+var words = []string{"error", "warn", "info", "alice", "bob", "Carol", "DAVE", "eve", "login", "logout", "payment", "Failed", "ok", "timeout", "the", "quick", "brown", "fox", "ÉCOLE", "école", "Straße", "STRASSE", "İstanbul", "ıstanbul", "K", "k", "K", "ǅ", "ǆ", "Ω", "ω", "日本語", "emoji😀", "a::b", "x::", "::y", "a.b", "1", "2", "42", "true", "null", "3.14", "-0", "1e5", "NaN", "foo-bar", "foo_bar", "FOO", "foo", "class", "Boss", "press", "ss"}
 
 // spaceRunes is every unicode.IsSpace rune (strings.Fields boundaries).
 var spaceRunes = func() []rune {
